@@ -365,6 +365,46 @@ def beta_reduce_local_defs(fn: ast.FunctionDef) -> bool:
     return changed
 
 
+def beta_reduce_module_helpers(ctx: Ctx, f: Func, fn: ast.FunctionDef) -> bool:
+    """`_first(x)` with `_first` a private function of the same module whose body is one `return E` (no defaults, no
+    star parameters, no call-by-keyword) and plain arguments: the call is E[param := argument], wherever it stands."""
+    changed = False
+
+    class _T(ast.NodeTransformer):
+        def visit_FunctionDef(self, node: ast.FunctionDef):
+            if node is fn:
+                self.generic_visit(node)
+            return node
+
+        def visit_Call(self, node: ast.Call):
+            nonlocal changed
+            self.generic_visit(node)
+            if isinstance(node.func, ast.Name) and node.func.id.startswith("_") and not node.func.id.startswith("__") and not node.keywords:
+                m = f.module.functions.get(node.func.id)
+                if m is None or m.node is fn or m.node is f.node:
+                    return node
+                d = m.node
+                a = d.args
+                body = _strip_doc(list(d.body))
+                if not (len(body) == 1 and isinstance(body[0], ast.Return) and body[0].value is not None) or a.vararg or a.kwarg or a.kwonlyargs or a.defaults or a.posonlyargs or d.decorator_list:
+                    return node
+                if any(isinstance(x, (ast.Yield, ast.YieldFrom, ast.Await, ast.NamedExpr, ast.Lambda)) for x in ast.walk(body[0].value)):
+                    return node
+                if any(isinstance(x, ast.Name) and x.id == d.name for x in ast.walk(body[0].value)):
+                    return node
+                ps = [x.arg for x in a.args]
+                if len(ps) == len(node.args) and all(_pure_arg(x) for x in node.args):
+                    # names of the callee's module are the caller's module's names: same module
+                    changed = True
+                    return ast.copy_location(_SubstMany(dict(zip(ps, node.args))).visit(clone(body[0].value)), node)
+            return node
+
+    _T().visit(fn)
+    if changed:
+        ast.fix_missing_locations(fn)
+    return changed
+
+
 def inline_value_calls(ctx: Ctx, f: Func, fn: ast.FunctionDef, only_local: bool = False) -> bool:
     """`x = self._m(a, self._n())` where the private helpers end in their only `return <expr>`:
     helper bodies are written out in front of the statement (arguments that are such calls are hoisted into
@@ -1376,6 +1416,7 @@ def normalised(ctx: Ctx, f: Func, steps: str = "delegation,tailcalls,calls,unrol
             round_changed |= inline_value_calls(ctx, f, fn)
         if "localcalls" in want:
             round_changed |= beta_reduce_local_defs(fn)
+            round_changed |= beta_reduce_module_helpers(ctx, f, fn)
             round_changed |= inline_value_calls(ctx, f, fn, only_local=True)
         if "gencalls" in want:
             round_changed |= inline_drained_generators(ctx, f, fn)
